@@ -163,7 +163,9 @@ public:
     std::vector<std::string> stub_components() const override
     {
         return { "thread scheduling (seeded scheduler over parked real threads)",
-                 "pthread_mutex_lock/unlock/trylock blocking (-Wl,--wrap, ownership modelled)",
+                 "pthread_mutex_* / rwlock / spin lock / sched_yield / flockfile / static-initialisation guards (-Wl,--wrap, ownership modelled)",
+                 "pthread_cond_*, sem_* (symbol interposition), pthread_atfork + fork as seen by the parent (handler table)",
+                 "atomics variant only: the ThreadSanitizer runtime (atomics_rt.cpp: atomic operations yield to the scheduler)",
                  "streambuf behind std::cout/std::cerr (RacyBuf: chunked, buffered, not thread-safe)",
                  "Clock (SimClock)", "user-supplied Formatter, recording Sink, tracing wrapper around the filter expression",
                  "streamed callables (workload)" };
@@ -1567,8 +1569,6 @@ Counter p_spin_forced("probe.spinning_thread_preempted");
 extern "C" void lsim_atomic_yield(void)
 {
     static thread_local bool inside = false;
-    static thread_local uint64_t last_switches = 0;
-    static thread_local int streak = 0;
     if (inside || !fctl().window)
         return;
     inside = true;
@@ -1576,6 +1576,7 @@ extern "C" void lsim_atomic_yield(void)
     if (s.in_sim())
     {
         NoFault nf;
+        auto& me = s.t[Scheduler::self_id()];
         c_atomic_yields++;
         if (static_cast<int64_t>(s.atomic_ops++) == s.atomic_stall_at)
         {
@@ -1585,19 +1586,29 @@ extern "C" void lsim_atomic_yield(void)
             while (s.steps - start < static_cast<uint64_t>(s.atomic_stall_len) && s.others_runnable(Scheduler::self_id()))
                 s.spin_yield();
         }
-        if (s.switches == last_switches)
-            ++streak;
-        else
-            streak = 0;
-        if (streak >= 48)
+        // a thread that has been made to step aside before and has not passed any other kind of
+        // yield point since is a known spinner: it gets a short fuse, or a crowd of spinners would
+        // cost 48 steps each before the lock holder runs again
+        if (me.progress != me.a_last_progress)
         {
-            streak = 0;
+            me.a_last_progress = me.progress;
+            me.a_fuse = 48;
+            me.a_streak = 0;
+        }
+        if (s.switches == me.a_last_switches)
+            ++me.a_streak;
+        else
+            me.a_streak = 0;
+        if (me.a_streak >= me.a_fuse)
+        {
+            me.a_streak = 0;
+            me.a_fuse = 3;
             p_spin_forced++;
             s.spin_yield();
         }
         else
             s.yield(YK_ATOMIC);
-        last_switches = s.switches;
+        me.a_last_switches = s.switches;
     }
     inside = false;
 }
